@@ -78,6 +78,8 @@ pub enum Act {
     /// a low-level TaskData edit of A or B, committed at once
     Raw { on_b: bool, prop: String, value: Option<String> },
     Rebuild,
+    /// purge A or B (TaskData::delete), committed at once
+    Purge { on_b: bool },
 }
 
 #[derive(Clone)]
@@ -319,98 +321,132 @@ impl TaskSys {
     }
 
     /// After anything was stored: stored tasks, synthetic tags and the dependency map reflect
-    /// exactly the stored statuses, start/wait times, dep_ keys and the working set.
+    /// exactly the stored statuses, start/wait times, dep_ keys and the working set -- read
+    /// through a fresh Replica with a freshly built dependency map.
     fn check_derived(&self, s: &mut State) -> Result<(), String> {
         self.depmap_checks.fetch_add(1, Ordering::Relaxed);
         let obs = crate::util::block_on(observe(&mut s.mem));
-        let now = Utc::now().timestamp();
-        let res: Result<(), String> = crate::util::block_on(with_replica(&mut s.mem, Ctl::new(), async |r| {
-            let dm = r.dependency_map(true).await.map_err(|e| format!("read-error: {e:#}"))?;
-            // model of the dependency map
-            let mut edges = std::collections::BTreeSet::new();
-            for u in obs.ws.iter().flatten() {
-                if let Some(t) = obs.tasks.get(u) {
-                    for k in t.keys() {
-                        if let Some(d) = k.strip_prefix("dep_").and_then(|d| Uuid::parse_str(d).ok()) {
-                            if obs.tasks.get(&d).and_then(|x| x.get("status")).map(|s| s.as_str()) == Some("pending") {
-                                edges.insert((*u, d));
-                            }
-                        }
-                    }
-                }
-            }
-            for u in [a_id(), b_id()] {
-                let deps: std::collections::BTreeSet<Uuid> = dm.dependencies(u).collect();
-                let want: std::collections::BTreeSet<Uuid> = edges.iter().filter(|e| e.0 == u).map(|e| e.1).collect();
-                if deps != want {
-                    return Err(format!("depmap: dependencies of {u} are {deps:?} but stored dep_ keys / statuses / working set give {want:?}"));
-                }
-                let dts: std::collections::BTreeSet<Uuid> = dm.dependents(u).collect();
-                let wantd: std::collections::BTreeSet<Uuid> = edges.iter().filter(|e| e.1 == u).map(|e| e.0).collect();
-                if dts != wantd {
-                    return Err(format!("depmap: dependents of {u} are {dts:?} but should be {wantd:?}"));
-                }
-                if let Some(t) = r.get_task(u).await.map_err(|e| format!("read-error: {e:#}"))? {
-                    let p = obs.tasks.get(&u).cloned().unwrap_or_default();
-                    let st = p.get("status").map(|s| s.as_str());
-                    let expect: Vec<(&str, bool)> = vec![
-                        ("PENDING", st == Some("pending") || st.is_none()),
-                        ("COMPLETED", st == Some("completed")),
-                        ("DELETED", st == Some("deleted")),
-                        ("ACTIVE", p.contains_key("start")),
-                        ("WAITING", p.get("wait").and_then(|w| w.parse::<i64>().ok()).is_some_and(|w| w > now)),
-                        ("BLOCKED", !want.is_empty()),
-                        ("UNBLOCKED", want.is_empty()),
-                        ("BLOCKING", !wantd.is_empty()),
-                    ];
-                    for (name, exp) in expect {
-                        let tag = Tag::try_from(name).unwrap();
-                        if t.has_tag(&tag) != exp {
-                            return Err(format!("synthetic-tag: {name} is {} on a task stored as {p:?} (dependencies {want:?}, dependents {wantd:?})", t.has_tag(&tag)));
-                        }
-                        if t.get_tags().any(|x| x == tag) != exp {
-                            return Err(format!("synthetic-tag: get_tags disagrees with has_tag for {name}"));
-                        }
-                    }
-                    // read-back of what was written
-                    if p.contains_key("tag_work") != t.get_tags().any(|x| x == Tag::try_from("work").unwrap()) {
-                        return Err("read-back: user tag 'work' does not read back as stored".into());
-                    }
-                    let ann_key = format!("annotation_{}", t1().timestamp());
-                    if p.contains_key(&ann_key) != t.get_annotations().any(|a| a.entry == t1() && Some(&a.description) == p.get(&ann_key)) {
-                        return Err("read-back: annotation does not read back as stored".into());
-                    }
-                    // every stored tag_/annotation_ key that is well-formed reads back, and nothing else does
-                    let stored_tags: std::collections::BTreeSet<String> = p.keys().filter_map(|k| k.strip_prefix("tag_")).filter(|n| Tag::try_from(*n).is_ok_and(|t| t.is_user())).map(|s| s.to_string()).collect();
-                    let read_tags: std::collections::BTreeSet<String> = t.get_tags().filter(|x| x.is_user()).map(|x| x.to_string()).collect();
-                    if stored_tags != read_tags {
-                        return Err(format!("read-back: user tags read back as {read_tags:?} but {stored_tags:?} are stored"));
-                    }
-                    let stored_ann: std::collections::BTreeSet<(i64, String)> = p.iter().filter_map(|(k, v)| k.strip_prefix("annotation_").and_then(|n| n.parse::<i64>().ok()).map(|n| (n, v.clone()))).collect();
-                    let read_ann: std::collections::BTreeSet<(i64, String)> = t.get_annotations().map(|a| (a.entry.timestamp(), a.description)).collect();
-                    if stored_ann != read_ann {
-                        return Err(format!("read-back: annotations read back as {read_ann:?} but {stored_ann:?} are stored"));
-                    }
-                    let stored_deps: std::collections::BTreeSet<Uuid> = p.keys().filter_map(|k| k.strip_prefix("dep_")).filter_map(|d| Uuid::parse_str(d).ok()).collect();
-                    let read_deps: std::collections::BTreeSet<Uuid> = t.get_dependencies().collect();
-                    if stored_deps != read_deps {
-                        return Err(format!("read-back: dependencies read back as {read_deps:?} but {stored_deps:?} are stored"));
-                    }
-                    if p.get("github.id").map(|s| s.as_str()) != t.get_user_defined_attribute("github.id") {
-                        return Err("read-back: user-defined attribute does not read back as stored".into());
-                    }
-                    if p.contains_key(&format!("dep_{}", b_id())) != t.get_dependencies().any(|d| d == b_id()) {
-                        return Err("read-back: dependency does not read back as stored".into());
-                    }
-                    if p.get("due").and_then(|d| d.parse::<i64>().ok()) != t.get_due().map(|d| d.timestamp()) {
-                        return Err("read-back: due does not read back as stored".into());
-                    }
-                }
-            }
-            Ok(())
-        }));
-        res
+        let got = crate::util::block_on(with_replica(&mut s.mem, Ctl::new(), async |r| read_derived(r, true).await))?;
+        compare_derived(&obs, &got, "a fresh Replica")
     }
+
+    /// Commit `ops_` through a Replica that has already served reads (so its dependency map is
+    /// cached), then read tasks and the dependency map again through the SAME Replica without
+    /// forcing a rebuild: they must reflect what is stored now.
+    fn commit_through_warm_replica(&self, s: &mut State, ops_: Vec<Operation>) -> Result<(), String> {
+        let got = crate::util::block_on(with_replica(&mut s.mem, Ctl::new(), async |r| {
+            let _ = read_derived(r, false).await?;
+            r.commit_operations(ops_).await.map_err(|e| format!("commit-failed: {e:#}"))?;
+            read_derived(r, false).await
+        }))?;
+        let obs = crate::util::block_on(observe(&mut s.mem));
+        compare_derived(&obs, &got, "the Replica that made the commit (after earlier reads)")
+    }
+}
+
+type Derived = (std::sync::Arc<taskchampion::DependencyMap>, Vec<(Uuid, Option<Task>)>);
+
+async fn read_derived<S: taskchampion::storage::Storage>(r: &mut taskchampion::Replica<S>, force: bool) -> Result<Derived, String> {
+    let dm = r.dependency_map(force).await.map_err(|e| format!("read-error: {e:#}"))?;
+    let mut tasks = vec![];
+    for u in [a_id(), b_id()] {
+        tasks.push((u, r.get_task(u).await.map_err(|e| format!("read-error: {e:#}"))?));
+    }
+    Ok((dm, tasks))
+}
+
+fn compare_derived(obs: &crate::world::replicas::Obs, got: &Derived, how: &str) -> Result<(), String> {
+    let (dm, tasks) = got;
+    let now = Utc::now().timestamp();
+    // model of the dependency map
+    let mut edges = std::collections::BTreeSet::new();
+    for u in obs.ws.iter().flatten() {
+        if let Some(t) = obs.tasks.get(u) {
+            for k in t.keys() {
+                if let Some(d) = k.strip_prefix("dep_").and_then(|d| Uuid::parse_str(d).ok()) {
+                    if obs.tasks.get(&d).and_then(|x| x.get("status")).map(|s| s.as_str()) == Some("pending") {
+                        edges.insert((*u, d));
+                    }
+                }
+            }
+        }
+    }
+    for (u, task) in tasks {
+        let u = *u;
+        let deps: std::collections::BTreeSet<Uuid> = dm.dependencies(u).collect();
+        let want: std::collections::BTreeSet<Uuid> = edges.iter().filter(|e| e.0 == u).map(|e| e.1).collect();
+        if deps != want {
+            return Err(format!("depmap: read through {how}, dependencies of {u} are {deps:?} but stored dep_ keys / statuses / working set give {want:?}"));
+        }
+        let dts: std::collections::BTreeSet<Uuid> = dm.dependents(u).collect();
+        let wantd: std::collections::BTreeSet<Uuid> = edges.iter().filter(|e| e.1 == u).map(|e| e.0).collect();
+        if dts != wantd {
+            return Err(format!("depmap: read through {how}, dependents of {u} are {dts:?} but should be {wantd:?}"));
+        }
+        if task.is_some() != obs.tasks.contains_key(&u) {
+            return Err(format!("read-back: read through {how}, get_task({u}) is {} but the task is {}stored", if task.is_some() { "Some" } else { "None" }, if obs.tasks.contains_key(&u) { "" } else { "not " }));
+        }
+        if let Some(t) = task {
+            let p = obs.tasks.get(&u).cloned().unwrap_or_default();
+            if task_props(t) != p {
+                return Err(format!("read-back: read through {how}, get_task({u}) holds {:?} but {p:?} is stored", task_props(t)));
+            }
+            let st = p.get("status").map(|s| s.as_str());
+            let expect: Vec<(&str, bool)> = vec![
+                ("PENDING", st == Some("pending") || st.is_none()),
+                ("COMPLETED", st == Some("completed")),
+                ("DELETED", st == Some("deleted")),
+                ("ACTIVE", p.contains_key("start")),
+                ("WAITING", p.get("wait").and_then(|w| w.parse::<i64>().ok()).is_some_and(|w| w > now)),
+                ("BLOCKED", !want.is_empty()),
+                ("UNBLOCKED", want.is_empty()),
+                ("BLOCKING", !wantd.is_empty()),
+            ];
+            for (name, exp) in expect {
+                let tag = Tag::try_from(name).unwrap();
+                if t.has_tag(&tag) != exp {
+                    return Err(format!("synthetic-tag: read through {how}, {name} is {} on a task stored as {p:?} (dependencies {want:?}, dependents {wantd:?})", t.has_tag(&tag)));
+                }
+                if t.get_tags().any(|x| x == tag) != exp {
+                    return Err(format!("synthetic-tag: get_tags disagrees with has_tag for {name}"));
+                }
+            }
+            // read-back of what was written
+            if p.contains_key("tag_work") != t.get_tags().any(|x| x == Tag::try_from("work").unwrap()) {
+                return Err("read-back: user tag 'work' does not read back as stored".into());
+            }
+            let ann_key = format!("annotation_{}", t1().timestamp());
+            if p.contains_key(&ann_key) != t.get_annotations().any(|a| a.entry == t1() && Some(&a.description) == p.get(&ann_key)) {
+                return Err("read-back: annotation does not read back as stored".into());
+            }
+            // every stored tag_/annotation_ key that is well-formed reads back, and nothing else does
+            let stored_tags: std::collections::BTreeSet<String> = p.keys().filter_map(|k| k.strip_prefix("tag_")).filter(|n| Tag::try_from(*n).is_ok_and(|t| t.is_user())).map(|s| s.to_string()).collect();
+            let read_tags: std::collections::BTreeSet<String> = t.get_tags().filter(|x| x.is_user()).map(|x| x.to_string()).collect();
+            if stored_tags != read_tags {
+                return Err(format!("read-back: user tags read back as {read_tags:?} but {stored_tags:?} are stored"));
+            }
+            let stored_ann: std::collections::BTreeSet<(i64, String)> = p.iter().filter_map(|(k, v)| k.strip_prefix("annotation_").and_then(|n| n.parse::<i64>().ok()).map(|n| (n, v.clone()))).collect();
+            let read_ann: std::collections::BTreeSet<(i64, String)> = t.get_annotations().map(|a| (a.entry.timestamp(), a.description)).collect();
+            if stored_ann != read_ann {
+                return Err(format!("read-back: annotations read back as {read_ann:?} but {stored_ann:?} are stored"));
+            }
+            let stored_deps: std::collections::BTreeSet<Uuid> = p.keys().filter_map(|k| k.strip_prefix("dep_")).filter_map(|d| Uuid::parse_str(d).ok()).collect();
+            let read_deps: std::collections::BTreeSet<Uuid> = t.get_dependencies().collect();
+            if stored_deps != read_deps {
+                return Err(format!("read-back: dependencies read back as {read_deps:?} but {stored_deps:?} are stored"));
+            }
+            if p.get("github.id").map(|s| s.as_str()) != t.get_user_defined_attribute("github.id") {
+                return Err("read-back: user-defined attribute does not read back as stored".into());
+            }
+            if p.contains_key(&format!("dep_{}", b_id())) != t.get_dependencies().any(|d| d == b_id()) {
+                return Err("read-back: dependency does not read back as stored".into());
+            }
+            if p.get("due").and_then(|d| d.parse::<i64>().ok()) != t.get_due().map(|d| d.timestamp()) {
+                return Err("read-back: due does not read back as stored".into());
+            }
+        }
+    }
+    Ok(())
 }
 
 impl Sys for TaskSys {
@@ -455,12 +491,14 @@ impl Sys for TaskSys {
             None => {
                 v.push(Act::Open);
                 if left >= 2 {
+                    let dep_on_a = format!("dep_{}", a_id());
                     for (on_b, prop, value) in [
                         (false, "status", Some("completed")),
                         (false, "end", None),
                         (false, "status", Some("pending")),
                         (true, "status", Some("completed")),
                         (true, "status", Some("pending")),
+                        (true, dep_on_a.as_str(), Some("")),
                     ] {
                         let exists = if on_b { s.stored_b.is_some() } else { s.stored_a.is_some() };
                         if exists {
@@ -468,6 +506,11 @@ impl Sys for TaskSys {
                         }
                     }
                     v.push(Act::Rebuild);
+                    for on_b in [false, true] {
+                        if if on_b { s.stored_b.is_some() } else { s.stored_a.is_some() } {
+                            v.push(Act::Purge { on_b });
+                        }
+                    }
                 }
             }
             Some(sess) => {
@@ -571,7 +614,7 @@ impl Sys for TaskSys {
                 self.commits.fetch_add(1, Ordering::Relaxed);
                 let sess = n.session.take().unwrap();
                 let ops_ = sess.ops.clone();
-                crate::util::block_on(with_replica(&mut n.mem, Ctl::new(), async |r| r.commit_operations(ops_).await.map_err(|e| format!("commit-failed: {e:#}"))))?;
+                self.commit_through_warm_replica(&mut n, ops_)?;
                 let obs = crate::util::block_on(observe(&mut n.mem));
                 let stored: Props = obs.tasks.get(&a_id()).cloned().unwrap_or_default();
                 let held = task_props(&sess.task);
@@ -588,17 +631,34 @@ impl Sys for TaskSys {
             Act::Raw { on_b, prop, value } => {
                 let u = if *on_b { b_id() } else { a_id() };
                 let (p, v) = (prop.clone(), value.clone());
-                crate::util::block_on(with_replica(&mut n.mem, Ctl::new(), async |r| {
+                let ops_ = crate::util::block_on(with_replica(&mut n.mem, Ctl::new(), async |r| {
                     let mut td = r.get_task_data(u).await.map_err(|e| e.to_string())?.ok_or("missing")?;
                     let mut ops_ = vec![];
                     td.update(p, v, &mut ops_);
-                    r.commit_operations(ops_).await.map_err(|e| format!("commit-failed: {e:#}"))
+                    Ok::<_, String>(ops_)
                 }))?;
+                self.commit_through_warm_replica(&mut n, ops_)?;
                 let m = if *on_b { n.stored_b.as_mut() } else { n.stored_a.as_mut() }.unwrap();
                 match value {
                     Some(v) => m.insert(prop.clone(), v.clone()),
                     None => m.remove(prop),
                 };
+                self.check_derived(&mut n)?;
+            }
+            Act::Purge { on_b } => {
+                let u = if *on_b { b_id() } else { a_id() };
+                let ops_ = crate::util::block_on(with_replica(&mut n.mem, Ctl::new(), async |r| {
+                    let mut td = r.get_task_data(u).await.map_err(|e| e.to_string())?.ok_or("missing")?;
+                    let mut ops_ = vec![];
+                    td.delete(&mut ops_);
+                    Ok::<_, String>(ops_)
+                }))?;
+                self.commit_through_warm_replica(&mut n, ops_)?;
+                if *on_b {
+                    n.stored_b = None;
+                } else {
+                    n.stored_a = None;
+                }
                 self.check_derived(&mut n)?;
             }
             Act::Rebuild => {
@@ -686,7 +746,7 @@ pub fn replay_trace(sys: &TaskSys, tr: &[Act], verbose: bool) -> Result<(), Stri
 pub fn run(opts: &Opts) -> i32 {
     let rep = Report::new("C19", "model_checking", opts);
     rep.set("exhaustive", true);
-    rep.set("rule", "histories over {open an editing session on task A (get/create), call one of 15-32 Task mutators (statuses incl. unknown, done, start/stop, timestamps, explicit modified, user/synthetic tags, annotations, UDAs incl. reserved names, dependencies, generic set_value), commit + reload, low-level TaskData edits of A and of its dependency target B, rebuild} from four stored prior states (absent; pending; completed with end and a dependency; status/end disagreeing); every call is compared with a task model (recorded operations incl. old values, held object, usage errors), every commit with storage, and after every store the synthetic tags and dependency_map(true) are recomputed from stored statuses/start/wait/dep_ keys and the working set; non-trivial = stored status/end disagree or a session recorded >= 3 operations");
+    rep.set("rule", "histories over {open an editing session on task A (get/create), call one of 15-32 Task mutators (statuses incl. unknown, done, start/stop, timestamps, explicit modified, user/synthetic tags, annotations, UDAs incl. reserved names, dependencies, generic set_value), commit + reload, low-level TaskData edits of A and of its dependency target B (statuses, a dependency of B on A), purging A or B, rebuild} from four stored prior states (absent; pending; completed with end and a dependency; status/end disagreeing); every call is compared with a task model (recorded operations incl. old values, held object, usage errors), every commit with storage, and after every store the synthetic tags and the dependency map (both freshly built through a new Replica, and the cached one of the Replica that served reads before making the commit) are recomputed from stored statuses/start/wait/dep_ keys and the working set; non-trivial = stored status/end disagree or a session recorded >= 3 operations");
     rep.assume("clock values are abstracted to NOW and checked to lie in the call's time window");
     let q = opts.tier == Tier::Quick;
     let n = 4;
